@@ -52,3 +52,11 @@ CLAIMS["C17"] = (
     "error-handling move out of an accepting state; end-context transition bodies obey their rows and their gotos have labels. Generator-level facts "
     "for all programs; which actions sit on End transitions is a DFA-level fact and not decided. Found and repaired F-15, F-23 (and F-03 under C11).",
     "Trusted: line classifier; DFState.__getitem__'s Else fallback (checked structurally). Not decided: DFA-level placement of End transitions/actions.")
+CLAIMS["C19"] = (
+    "effect/phase classification of load_commandline_flags + literal flag-table invariants",
+    "Static and essentially complete for this property: the resolution is a straight-line algorithm over literal tables. Decided: phase order of "
+    "writes to the flag map (reset, level loop, explicit overrides, implication fixpoint, exclusion pass; argument parsing never writes it), "
+    "cumulative levels, table invariants T1-T5 that make 'implied flags on / exclusive flags never both on / explicit both-on raises' follow from "
+    "the phases, unconditional implication fixpoint, exclusion raise condition, guarded conversions of user text, implications codegen relies on. "
+    "Found and repaired F-17 (malformed -O/-d/--flag values).",
+    "Trusted: the paper argument from phases + invariants to the statement (rule docstrings / DESIGN.md C19).")
